@@ -49,8 +49,8 @@ Section Tdm.
     do s1 <- (if tdm_has_method (oflag m) then
                 match m with
                 | Some m' =>
-                    do r <- run m' srcs evs None;
-                    Ok (s_events r, Some (map (fun q => (tdm_store (fst q), tdm_store (snd q))) (s_tbl r)))
+                    do r <- run_nr m' srcs evs None;
+                    Ok (fst r, Some (map (fun q => (tdm_store (fst q), tdm_store (snd q))) (snd r)))
                 | None => Err TypeError
                 end
               else Ok (evs, t0));
